@@ -98,6 +98,36 @@ def gen(repo):
     allb = bool(re.search(r"Self::All\s*=>\s*None", ap))
     idb = bool(re.search(r"Self::IdSubSet\(\(n,\s*m\)\)\s*=>\s*\{\s*packs\.retain\(\|p\|\s*id_matches_n_m\(&p\.id,\s*n,\s*m\)\);\s*None", ap))
     subset_shape = pct and szb and allb and idb
+    # ---- the inputs check_repository is given (repository.rs) and the ones it fetches itself
+    rp = read(repo, "crates/core/src/repository.rs")
+    norm = lambda t: "".join(t.split())
+    chk_entry = norm(fn_body(rp, "check"))
+    covers_all = chk_entry == "lettrees=self.get_all_snapshots()?.into_iter().map(|snap|snap.tree).collect();check_repository(self,opts,trees)" \
+        and norm(fn_body(rp, "get_all_snapshots")) == "self.get_matching_snapshots(|_|true)"
+    if not covers_all and "check_repository(self,opts,trees)" not in chk_entry:
+        raise ExtractError("Repository::check no longer hands `trees` to check_repository in a recognised way")
+    with_trees = norm(fn_body(rp, "check_with_trees")) == "check_repository(self,opts,trees)"
+    trees_walked = bool(re.search(r"check_trees\(repo,\s*be,\s*&index_be,\s*trees,\s*&collector\)", cr)) and \
+        bool(re.search(r"TreeStreamerOnce::new\(be,\s*index,\s*snap_trees,\s*p\)", ct))
+    all_index_files = bool(re.search(r"for\s+index\s+in\s+be\.stream_all::<IndexFile>\(&p\)\?", cpk)) and cpk.count("stream_all") == 1
+    cpl = fn_body(ck, "check_packs_list")
+    listing = bool(re.search(r"let\s+mut\s+packs_from_be\s*=\s*be\.list_with_size\(FileType::Pack\)\?;", cpl)) and \
+        bool(re.search(r"check_packs_list\(be,\s*&mut\s+packs,\s*collector\)\?", cpk))
+    # trust_cache only guards comparisons of cached files; nothing else depends on it
+    tc_ok = True
+    sites = [m.start() for m in re.finditer(r"opts\.trust_cache", ck)]
+    tc_in_cr = [m.start() for m in re.finditer(r"opts\.trust_cache", cr)]
+    if len(sites) != len(tc_in_cr) or len(sites) != 2:
+        tc_ok = False
+    for pos in tc_in_cr:
+        m2 = re.compile(r"if\s*!opts\.trust_cache[^{]*\{").match(cr, cr.rfind("if", 0, pos))
+        if not m2:
+            tc_ok = False; continue
+        end = match_brace(cr, m2.end() - 1)
+        blk = cr[m2.end():end]
+        if "check_cache_files(" not in blk or re.search(r"check_packs\(|check_trees\(|read_data|check_pack\(", blk):
+            tc_ok = False
+    read_data_gate = len(re.findall(r"if\s+opts\.read_data\s*\{", cr)) == 1 and len(re.findall(r"opts\.read_data(?!_)", ck)) == 1
     b = lambda x: "true" if x else "false"
     out = ["(* GENERATED by props/C05/extract.py from repofile/packfile.rs and commands/check.rs - do not edit *)",
            "From Coq Require Import NArith Bool.", "Local Open Scope N_scope.",
@@ -114,6 +144,17 @@ def gen(repo):
            "Definition x_filter_missing : bool := %s." % b(f_missing),
            "Definition x_filter_used : bool := %s." % b(f_used),
            "Definition x_snapshot_names_compared : bool := %s." % b(snapname),
+           "(* Repository::check hands the root tree of EVERY snapshot file to check_repository (get_all_snapshots, no filter);",
+           "   check_with_trees hands over exactly the trees it is given; check_repository walks exactly these trees *)",
+           "Definition x_check_covers_all_snapshots : bool := %s." % b(covers_all),
+           "Definition x_check_with_trees_passes_trees : bool := %s." % b(with_trees),
+           "Definition x_given_trees_are_walked : bool := %s." % b(trees_walked),
+           "(* check_packs streams every index file; the pack listing is the backend's; trust_cache only guards the",
+           "   comparisons of cached files; read_data alone gates the reading of packs *)",
+           "Definition x_check_reads_all_index_files : bool := %s." % b(all_index_files),
+           "Definition x_pack_listing_from_backend : bool := %s." % b(listing),
+           "Definition x_trust_cache_only_guards_cache : bool := %s." % b(tc_ok),
+           "Definition x_read_data_gates_pack_reading : bool := %s." % b(read_data_gate),
            "(* read_data also reads every pack that holds a copy of a blob of a used pack *)",
            "Definition x_reads_all_copies : bool := %s." % b(reads_copies),
            "(* apply_with_rng: All = no budget, Percentage = total*p/100, Size = s, IdSubSet = retain by id; a pack is kept when it fits the remaining budget exactly (>=) or only strictly (>) *)",
@@ -135,5 +176,5 @@ def gen(repo):
            "Definition x_offsets_checked_on_sorted : bool := %s." % b(offs), ""]
     meta = {"consts": consts, "pack_insert_sites": inserts, "roots": roots, "order_ok": order_ok,
             "check_index_includes_marked": check_marked, "unreadable_index_aborts_check": idx_abort, "subset_reduces_n": nm_reduces,
-            "reads_all_copies": reads_copies, "subset_fits_exactly": fits_exactly}
+            "reads_all_copies": reads_copies, "check_covers_all_snapshots": covers_all, "subset_fits_exactly": fits_exactly}
     return "\n".join(out), meta
